@@ -45,6 +45,7 @@ import (
 	"verifharness/magic"
 	"verifharness/pe"
 	"verifharness/pgp"
+	"verifharness/xap"
 )
 
 const (
@@ -677,6 +678,12 @@ func opFunc(fields []string) (func() string, int) {
 		return func() string { return pgp.Handle(fields[1:]) }, pgp.InputLen(fields[1:])
 	case "MAGIC":
 		return func() string { return magic.Handle(fields[1:]) }, magic.InputLen(fields[1:])
+	case "XAP":
+		n := 0
+		if len(fields) > 2 {
+			n = len(fields[2]) / 2
+		}
+		return func() string { return xap.Handle(fields[1:]) }, n
 	case "APKBLK", "CSBLOB", "XAPSIG", "BINLOAD":
 		if len(fields) != 3 {
 			return nil, 0
